@@ -17,6 +17,9 @@ mod c09;
 mod tgen;
 mod c11;
 mod c12;
+mod c13;
+mod c14;
+mod c17;
 
 use engine::{Ctx, Tier};
 
@@ -54,7 +57,7 @@ fn main() {
       }
     };
   }
-  dispatch!("C01" => c01, "C02" => c02, "C03" => c03, "C04" => c04, "C05" => c05, "C06" => c06, "C07" => c07, "C08" => c08, "C09" => c09, "C11" => c11, "C12" => c12);
+  dispatch!("C01" => c01, "C02" => c02, "C03" => c03, "C04" => c04, "C05" => c05, "C06" => c06, "C07" => c07, "C08" => c08, "C09" => c09, "C11" => c11, "C12" => c12, "C13" => c13, "C14" => c14, "C17" => c17);
 }
 
 #[allow(dead_code)]
